@@ -50,6 +50,7 @@ class _Env(object):
     up = True
     logf = None
     installed = None
+    null_handler = None
 
 
 def now():
@@ -137,6 +138,9 @@ def install():
              (m_base, 'time', m_base.time), (m_mbtiles, 'time', m_mbtiles.time), (m_sutil, 'time', m_sutil.time),
              (m_seeder, 'queue_class', m_seeder.queue_class), (m_http.HTTPClient, 'open', m_http.HTTPClient.open)]
     m_http.HTTPClient.open = _fake_http_open
+    import logging
+    _Env.null_handler = logging.NullHandler()          # expected upstream failures are not worth a log line
+    logging.getLogger('mapproxy').addHandler(_Env.null_handler)
     m_times.datetime = _DatetimeModule
     m_file.write_atomic = write_atomic
     tm = _TimeModule()
@@ -152,6 +156,8 @@ def uninstall():
         return
     for mod, name, val in _Env.installed:
         setattr(mod, name, val)
+    import logging
+    logging.getLogger('mapproxy').removeHandler(_Env.null_handler)
     _Env.installed = None
 
 
